@@ -207,10 +207,27 @@ func c19ViaAPI(t *rapid.T, o c19Obj) c19Obj {
 	return c19Obj{Pod: out}
 }
 
+// c19Unbound is the object as the API server held it between the pre-bind patch (reservation-allocated annotation
+// written) and the bind; for a Reservation: created, not scheduled yet.
+func c19Unbound(o c19Obj) c19Obj {
+	n := o.copy()
+	if n.Resv != nil {
+		n.Resv.Status.NodeName = ""
+		n.Resv.Status.Phase = schedulingv1alpha1.ReservationPending
+		n.Resv.Status.Allocatable = nil
+	} else {
+		n.Pod.Spec.NodeName = ""
+		n.Pod.Status.Phase = ""
+	}
+	return n
+}
+
 // ---------------------------------------------------------------- replay into a fresh scheduler
 
 type c19Event struct {
-	Kind string // add | dup-add | update
+	// add | dup-add | update | add-unbound (the informer first saw the object annotated but not bound / not scheduled)
+	// | bind-update (the update old=unbound, new=bound that follows an add-unbound: same assignment)
+	Kind string
 	UID  types.UID
 }
 
@@ -222,6 +239,20 @@ func c19Replay(objs map[types.UID]c19Obj, events []c19Event) *reservationCache {
 	for _, ev := range events {
 		o := objs[ev.UID].copy()
 		switch ev.Kind {
+		case "add-unbound":
+			u := c19Unbound(o)
+			if u.Resv != nil {
+				rh.OnAdd(u.Resv, true)
+			} else {
+				ph.OnAdd(u.Pod, true)
+			}
+		case "bind-update":
+			u := c19Unbound(o)
+			if u.Resv != nil {
+				rh.OnUpdate(u.Resv, o.Resv)
+			} else {
+				ph.OnUpdate(u.Pod, o.Pod)
+			}
 		case "add", "dup-add":
 			if o.Resv != nil {
 				rh.OnAdd(o.Resv, true)
@@ -278,6 +309,49 @@ func c19GenEvents(t *rapid.T, objs map[types.UID]c19Obj, uids []types.UID, reser
 		}
 		pos := rapid.IntRange(lo, len(evs)).Draw(t, "extraPos")
 		evs = append(evs[:pos], append([]c19Event{{kind, u}}, evs[pos:]...)...)
+	}
+	// some objects are first seen between their pre-bind patch and their bind: Add(annotated, unbound), then the update
+	// to the bound object, which carries the same assignment, before anything else about that object
+	for _, u := range uids {
+		if rapid.IntRange(0, 3).Draw(t, "seenBeforeBind") != 0 {
+			continue
+		}
+		first, nextOfU := -1, len(evs)
+		for j, ev := range evs {
+			if ev.UID != u {
+				continue
+			}
+			if first < 0 {
+				first = j
+			} else {
+				nextOfU = j
+				break
+			}
+		}
+		evs[first].Kind = "add-unbound"
+		lo := first + 1
+		if reservationsFirst && objs[u].Resv == nil { // keep the pod's bind behind all reservation adds
+			for j, ev := range evs {
+				if objs[ev.UID].Resv != nil && (ev.Kind == "add" || ev.Kind == "add-unbound" || ev.Kind == "bind-update") && j+1 > lo {
+					lo = j + 1
+				}
+			}
+		}
+		if lo > nextOfU {
+			lo = nextOfU // an extra event of the pod follows immediately: bind right before it
+		}
+		if reservationsFirst && objs[u].Resv != nil { // a Reservation is Available before any pod event is delivered
+			for j, ev := range evs {
+				if objs[ev.UID].Resv == nil {
+					if j < nextOfU {
+						nextOfU = j
+					}
+					break
+				}
+			}
+		}
+		pos := rapid.IntRange(lo, nextOfU).Draw(t, "bindUpdatePos")
+		evs = append(evs[:pos], append([]c19Event{{"bind-update", u}}, evs[pos:]...)...)
 	}
 	return evs, extras
 }
@@ -429,7 +503,7 @@ func TestVerifC19ReservationReplay(t *testing.T) {
 		dead := false
 		sawMulti, sawDup, sawPodFinished, sawSelfEvent, sawAnyOrder, sawDeadResv, sawOnce, sawRestricted, sawIndexDiff := false, false, false, false, false, false, false, false, false
 		maxAssigned, checks := 0, 0
-		sawDeleted := false
+		sawDeleted, sawEarly := false, false
 
 		sorted := func(pred func(types.UID, c19Obj) bool) []types.UID {
 			var out []types.UID
@@ -527,6 +601,11 @@ func TestVerifC19ReservationReplay(t *testing.T) {
 			}
 			if extras > 0 {
 				sawDup = true
+			}
+			for _, ev := range evs {
+				if ev.Kind == "add-unbound" {
+					sawEarly = true
+				}
 			}
 			if c19IndexStr(w.cache.matchableOnNode) != c19IndexStr(fresh.matchableOnNode) || c19IndexStr(w.cache.allocatedOnNode) != c19IndexStr(fresh.allocatedOnNode) {
 				sawIndexDiff = true
@@ -803,6 +882,7 @@ func TestVerifC19ReservationReplay(t *testing.T) {
 		c.ClassIf(sawDup, "duplicate-or-noop-event")
 		c.ClassIf(sawPodFinished, "pod-finished(delivered-as-delete)")
 		c.ClassIf(sawDeleted, "pod-deleted")
+		c.ClassIf(sawEarly, "replay:add-unbound-then-bind-update")
 		c.ClassIf(sawSelfEvent, "live-saw-own-bind-event")
 		c.ClassIf(sawAnyOrder, "pod-event-before-reservation")
 		c.ClassIf(sawDeadResv, "reservation-ended-with-history")
